@@ -29,7 +29,7 @@ for d in sorted(glob.glob(root + '/C*-[A-Z]')):
     if id in det:
         rc, keys = det[id]
         checks = open(d + '/checks').read().split() if os.path.exists(d + '/checks') else [meta['property']]
-        meta['detected_by'] = {'command': ' ; '.join('./check %s quick' % p for p in checks) + ' (VERIF_SEED=1), change applied with git apply to /repo (or, in a parallel sweep, to a scratch worktree of /repo - tools/seed_lanes.sh), undone with git checkout -- .',
+        meta['detected_by'] = {'command': ' ; '.join('./check %s' % (p.replace(':thorough', ' thorough') if ':' in p else p + ' quick') for p in checks) + ' (VERIF_SEED=1), change applied with git apply to /repo (or, in a parallel sweep, to a scratch worktree of /repo - tools/seed_lanes.sh), undone with git checkout -- .',
                                'exit_code': rc, 'violation_keys': keys}
     elif 'detected_by' in old:
         meta['detected_by'] = old['detected_by']
@@ -38,7 +38,7 @@ for d in sorted(glob.glob(root + '/C*-[A-Z]')):
         txt = open('/root/detect/%s.out' % id, errors='replace').read()
         keys = sorted(set(re.findall(r'^VIOLATION .* key=(\S+) ', txt, re.M)))[:6]
         checks = open(d + '/checks').read().split() if os.path.exists(d + '/checks') else [meta['property']]
-        meta['detected_by'] = {'command': ' ; '.join('./check %s quick' % p for p in checks) + ' (VERIF_SEED=1), change applied with git apply, undone with git checkout -- . (result of an earlier sweep)',
+        meta['detected_by'] = {'command': ' ; '.join('./check %s' % (p.replace(':thorough', ' thorough') if ':' in p else p + ' quick') for p in checks) + ' (VERIF_SEED=1), change applied with git apply, undone with git checkout -- . (result of an earlier sweep)',
                                'exit_code': 1 if keys else 0, 'violation_keys': keys}
     json.dump(meta, open(d + '/meta.json', 'w'), indent=1)
     print(id, 'ok', len(needs))
